@@ -1,3 +1,68 @@
-import PGM.Model.Synth
+import PGM.Proofs.SynthSem
+/-!
+# C11 — synthetic records faithfully realise the model (rounding mode, column level)
+
+Theorems about `PGM/Model/Synth.lean`, the model of the inner `synthetic_col` of
+`graphical_model.py:196-249` over exact rationals, quantified over **every** admissible random
+outcome `pick` (which indices receive the extra unit).  `colOK` is the checker the correspondence
+run applies to every (column, group) histogram of the tables the real code generates;
+`colOK_sound` says what acceptance guarantees.
+-/
 namespace PGM.C11
+open PGM PGM.Synth
+
+/-- the targets sum to `total`; hence `Σ⌊x⌋ ≤ total` and `extra = Σ frac` -/
+theorem scaled_sum (counts : List Rat) (total : Nat) (h : CountsOK counts) :
+    sumQ (scaled counts total) = total := by
+  apply Synth.scaled_sum <;> assumption
+
+theorem extra_eq_sum_fracs (counts : List Rat) (total : Nat) (h : CountsOK counts) :
+    (extra counts total : Rat) = sumQ (fracs (scaled counts total)) := by
+  apply Synth.extra_eq_sum_fracs <;> assumption
+
+/-- **a valid choice of the extra indices always exists**: there are at least `extra` indices with
+positive fractional part (each fractional part is < 1 and they sum to `extra`) -/
+theorem extra_le_posfrac (counts : List Rat) (total : Nat) (h : CountsOK counts) :
+    extra counts total ≤ ((fracs (scaled counts total)).filter (fun f => decide (0 < f))).length := by
+  apply Synth.extra_le_posfrac <;> assumption
+
+/-- **exact row count**: for every admissible outcome `pick`, the column has exactly `total` entries -/
+theorem column_length (counts : List Rat) (total : Nat) (pick : List Nat) (h : CountsOK counts)
+    (hp : pickOK counts total pick = true) : (column counts total pick).length = total := by
+  apply Synth.column_length <;> assumption
+
+/-- every emitted value is a valid index of the attribute's domain -/
+theorem column_in_domain (counts : List Rat) (total : Nat) (pick : List Nat) (v : Nat)
+    (hv : v ∈ column counts total pick) : v < counts.length := by
+  apply Synth.column_in_domain <;> assumption
+
+/-- **rounding error below one, and zero cells stay empty**: value `i` is emitted `⌊xᵢ⌋` or `⌊xᵢ⌋+1`
+times, so `|count − xᵢ| < 1`, and never when `xᵢ = 0` -/
+theorem colCounts_round (counts : List Rat) (total : Nat) (pick : List Nat) (h : CountsOK counts)
+    (hp : pickOK counts total pick = true) (i : Nat) (hi : i < counts.length) :
+    let x := (scaled counts total).getD i 0
+    let o := (colCounts counts total pick).getD i 0
+    |(o : Rat) - x| < 1 ∧ (x = 0 → o = 0) ∧ (counts.getD i 0 = 0 → o = 0) := by
+  apply Synth.colCounts_round <;> assumption
+
+/-- the number of occurrences of `i` in the emitted column is `colCounts[i]` -/
+theorem column_count (counts : List Rat) (total : Nat) (pick : List Nat) (i : Nat) (hi : i < counts.length) :
+    (column counts total pick).count i = (colCounts counts total pick).getD i 0 := by
+  apply Synth.column_count <;> assumption
+
+/-- the histogram of every admissible outcome passes the checker … -/
+theorem colOK_of_pick (counts : List Rat) (total : Nat) (pick : List Nat) (h : CountsOK counts)
+    (hp : pickOK counts total pick = true) : colOK counts total (colCounts counts total pick) = true := by
+  apply Synth.colOK_of_pick <;> assumption
+
+/-- … and **the checker is sound**: an observed histogram it accepts has exactly `total` entries,
+rounding error below one in every cell, and nothing in zero-probability cells (`colOK` allows
+`⌊x⌋ + 1` only when `x` has a positive fractional part, so an integral target is never rounded up). -/
+theorem colOK_sound (counts : List Rat) (total : Nat) (out : List Nat) (h : CountsOK counts)
+    (hok : colOK counts total out = true) :
+    sumN out = total ∧ ∀ i, i < counts.length →
+      |((out.getD i 0 : Nat) : Rat) - (scaled counts total).getD i 0| < 1 ∧
+      (counts.getD i 0 = 0 → out.getD i 0 = 0) := by
+  apply Synth.colOK_sound <;> assumption
+
 end PGM.C11
